@@ -17,7 +17,7 @@ def nary(n):
     out.append(OpContract(
         name=f"combine_latest/{n}", props=["C13"], file=OBS + "combinelatest.py", func="combine_latest_",
         call=f"combine_latest_({args})", params={"n": f"const:{n}"}, sources=srcs,
-        spec="specs.c13:combine_latest", witness=f"reactivex.combine_latest({args})",
+        spec="specs.c13:combine_latest", live="not s.done_[i]", witness=f"reactivex.combine_latest({args})",
         cells={"has_value": "list:bool", "has_value_all": "bool", "is_done": "list:bool", "values": "list:val"},
         spec_args={"has": "list:bool", "vals": "list:val", "done_": "list:bool", "term": "bool"},
         inv=_idx(n, "has_value[{i}] == s.has[{i}] and is_done[{i}] == s.done_[{i}] and implies(s.has[{i}], same(values[{i}], s.vals[{i}]))")
@@ -26,7 +26,7 @@ def nary(n):
     out.append(OpContract(
         name=f"zip/{n}", props=["C13"], file=OBS + "zip.py", func="zip_",
         call=f"zip_({args})", params={"n": f"const:{n}"}, sources=srcs,
-        spec="specs.c13:zip_", witness=f"reactivex.zip({args})",
+        spec="specs.c13:zip_", live="not s.done_[i]", witness=f"reactivex.zip({args})",
         cells={"queues": "list:seq", "is_completed": "list:bool"},
         spec_args={"q": "list:seq", "done_": "list:bool", "term": "bool"},
         # between events at least one queue is empty (a full row is emitted at once)
@@ -35,7 +35,7 @@ def nary(n):
     out.append(OpContract(
         name=f"fork_join/{n}", props=["C13"], file=OBS + "forkjoin.py", func="fork_join_",
         call=f"fork_join_({args})", params={"n": f"const:{n}"}, sources=srcs,
-        spec="specs.c13:fork_join", witness=f"reactivex.fork_join({args})",
+        spec="specs.c13:fork_join", live="not s.done_[i]", witness=f"reactivex.fork_join({args})",
         cells={"values": "list:val", "is_done": "list:bool", "has_value": "list:bool"},
         spec_args={"has": "list:bool", "vals": "list:val", "done_": "list:bool", "term": "bool"},
         # while the run is live, a source that completed had a value (an empty completion ends the run at once)
